@@ -284,6 +284,30 @@ pub fn c02(tier: &str) -> Report {
     let mut rep = Report::new("C02", tier, "model_checking");
     let feed_evals = feed_completeness(&mut rep);
     rep.set("feed_completeness_cases(cluster sizes 2..24 x packet sizes x rng)", json!(feed_evals));
+    // exhaustive mode: tiny worlds explored to FIXPOINT (all latencies, all
+    // tie-breaks, all RNG answers): zero false suspicion for ALL time
+    {
+        let mut rows = Vec::new();
+        let mut worlds: Vec<(usize, Vec<u64>, u8)> = vec![(2, vec![0], 3), (2, vec![57], 1)];
+        if th {
+            worlds.extend([(3, vec![0, 0], 3), (3, vec![0, 230], 3), (2, vec![0], 10)]);
+        }
+        for (n, joins, mt) in worlds {
+            let cfg = Cfg { max_tx: mt, fanout: 3, ..base_cfg() };
+            let xo = crate::e2x::XOpts { lat_menu: vec![1, 9], words: rng::menu(n + 1, n), cfg: cfg.clone(), max_states: if th { 6_000_000 } else { 400_000 } };
+            let (st, bad) = crate::e2x::explore_fixpoint(crate::e2x::joining_world(n, &cfg, &joins), &xo);
+            rows.push(json!({"members": n, "join_instants": joins, "max_transmissions": mt, "global_states": st.states, "transitions": st.transitions, "bfs_levels": st.levels, "fixpoint_reached": st.fixpoint, "state_cap_hit": st.capped}));
+            rep.states += st.states;
+            rep.transitions += st.transitions;
+            if let Some(e) = bad {
+                rep.violate("c02:false-suspicion-exhaustive", format!("{e} [exhaustive exploration, n={n}, joins at {joins:?}, latencies {{1,9}}]"), json!({"engine": "e2x", "n": n}));
+            }
+            if !st.fixpoint && !st.capped && rep.violations.is_empty() {
+                rep.machinery("exhaustive exploration ended without fixpoint, cap or violation".into());
+            }
+        }
+        rep.set("exhaustive_fixpoint_worlds", json!(rows));
+    }
     let mut cells: Vec<(C02Cell, usize)> = Vec::new();
     let ns: Vec<usize> = if th { vec![2, 3, 4, 5] } else { vec![2, 3, 4] };
     for &n in &ns {
@@ -359,15 +383,21 @@ pub fn c02(tier: &str) -> Report {
             }
         }
     }
-    rep.states = agg.executions;
-    rep.transitions = agg.events;
-    rep.evaluations = agg.executions;
-    rep.distinct_nontrivial = agg.executions;
+    rep.states += agg.executions;
+    rep.transitions += agg.events;
+    rep.evaluations = agg.executions + feed_evals;
+    rep.distinct_nontrivial = rep.states;
     rep.set("cells", json!(n_cells));
     rep.set("cell_results", json!(cell_rows));
     rep.set("max_choice_points_per_run", json!(agg.max_points));
     rep.set("worst_discovery_time_in_probe_periods_x100", json!(agg.metrics.get("discovery_periods_x100")));
-    rep.sample(json!({"cell": cells[0].0.label(), "schedule": "default (minimum latency, FIFO ties, RNG answer 0) and every schedule with <= D deviations"}));
+    {
+        let c = &cells[cells.len() / 2].0;
+        let tr = trace_one(30, || {
+            run_c02(c, &BTreeMap::new());
+        });
+        rep.sample(json!({"cell": c.label(), "schedule": "default (minimum latency, FIFO ties, RNG answer 0)", "first_events": tr}));
+    }
     rep.rule = "per cell (cluster size x join pattern x max_transmissions x fan-out x periodic tasks x packet size): the default schedule plus EVERY schedule that departs from it in at most D choice points (latency of each datagram in {1,9} ticks, order of simultaneous events at a node, every RNG draw); states = executions, each run to the horizon on the real code".into();
     rep.assume("probe_period=100, probe_rtt=40, suspect_to_down_after=300 ticks; latencies 1 or 9 ticks (< probe_rtt/4); timers fire exactly on time");
     rep.assume("a joiner announces once; discovery bound asserted: (2n+2) probe periods after the last join");
@@ -615,7 +645,13 @@ pub fn c03(tier: &str) -> Report {
     rep.set("executions", json!(agg.executions));
     rep.set("worst_detection_ticks", json!(agg.metrics.get("worst_detection_ticks")));
     rep.set("max_choice_points_per_run", json!(agg.max_points));
-    rep.sample(json!({"cell": cells[cells.len() / 2].0.label()}));
+    {
+        let c = &cells[cells.len() / 2].0;
+        let tr = trace_one(30, || {
+            run_c03(c, &BTreeMap::new());
+        });
+        rep.sample(json!({"cell": c.label(), "schedule": "default", "events_from_the_window_start": tr}));
+    }
     rep.rule = "fault cells = cluster size x EVERY non-empty proper subset failing x {crash, leave_cluster while still running} x renewable or not x EVERY event index of one full probe rotation of the default schedule; on top of each cell every schedule with <= D deviations (latencies, tie-breaks, RNG draws). distinct = fault cells".into();
     rep.assume("bound asserted: (2n+1) probe periods + suspect_to_down_after after the failure; suspect_to_down_after >= 2 probe periods as in every Config preset");
     rep.assume("probe_period=100, probe_rtt=40, suspect_to_down_after=300 ticks; latencies 1 or 9 ticks; timers on time");
@@ -795,7 +831,13 @@ pub fn c04(tier: &str) -> Report {
             rep.machinery(format!("vacuous: no {k} datagram was ever the lost one"));
         }
     }
-    rep.sample(json!({"cell": cells[cells.len() / 3].0.label()}));
+    {
+        let c = &cells[cells.len() / 3].0;
+        let tr = trace_one(30, || {
+            run_c04(c, &BTreeMap::new());
+        });
+        rep.sample(json!({"cell": c.label(), "schedule": "default", "events_from_the_window_start": tr}));
+    }
     rep.rule = "fault cells = cluster size x notify_down_members x renewable x fan-out x max_transmissions x traffic flavour (plain / slow links so that indirect-probe relays exist / periodic gossip / a join inside the window) x EVERY datagram index of a window of 2n+2 probe periods lost; on top of each cell every schedule with <= D deviations. distinct = fault cells".into();
     rep.assume("probe_period=100, probe_rtt=40, suspect_to_down_after=300 ticks; latencies {1,9} ticks; in the one-slow-ack flavour exactly one Ack takes 45 extra ticks (> probe_rtt, < probe_period) so that an indirect probe cycle exists whose relays can be the lost datagram");
     rep.assume("the recovery clause is judged on the members of the formed cluster (a joiner whose own Announce or Feed is lost is not yet part of it)");
